@@ -36,6 +36,13 @@ pub enum Choice {
     SeekInterrupted2,
     /// from this call on every read answers Ok(0) (the stream has shrunk)
     EofDead,
+    /// read errors of the kinds a caller might be tempted to retry
+    ReadWouldBlock,
+    ReadTimedOut,
+    /// partial progress (1 byte), then an error on the continuation of the same read, then fine
+    ShortThenErr,
+    ShortThenWouldBlock,
+    ShortThenTimedOut,
 }
 pub const LEGAL: [Choice; 7] = [
     Choice::Short1,
@@ -46,11 +53,27 @@ pub const LEGAL: [Choice; 7] = [
     Choice::Interrupted,
     Choice::Interrupted2,
 ];
-pub const FAULTS: [Choice; 6] =
-    [Choice::ReadErr, Choice::Eof, Choice::ShortThenEof, Choice::SeekErr, Choice::ReadErrDead, Choice::SeekErrDead];
+pub const FAULTS: [Choice; 11] = [
+    Choice::ReadErr,
+    Choice::Eof,
+    Choice::ShortThenEof,
+    Choice::SeekErr,
+    Choice::ReadErrDead,
+    Choice::SeekErrDead,
+    Choice::ReadWouldBlock,
+    Choice::ReadTimedOut,
+    Choice::ShortThenErr,
+    Choice::ShortThenWouldBlock,
+    Choice::ShortThenTimedOut,
+];
 /// the C17 alphabet: the faults plus plain short reads (the property lists "short read" among the
 /// fault kinds; a correct reader absorbs them, so the answer must equal the fault-free one)
-pub const FAULTS_AND_SHORT: [Choice; 11] = [
+pub const FAULTS_AND_SHORT: [Choice; 16] = [
+    Choice::ReadWouldBlock,
+    Choice::ReadTimedOut,
+    Choice::ShortThenErr,
+    Choice::ShortThenWouldBlock,
+    Choice::ShortThenTimedOut,
     Choice::SeekInterrupted,
     Choice::SeekInterrupted2,
     Choice::EofDead,
@@ -155,9 +178,17 @@ impl Read for EnvReader {
             if let Some(c) = choice {
                 let short = |k: usize| if k >= 1 && k < full { Some(k) } else { None };
                 match c {
-                    Choice::Short1 | Choice::Short2 | Choice::ShortHalf | Choice::ShortNm2 | Choice::ShortNm1 | Choice::ShortThenEof => {
+                    Choice::Short1
+                    | Choice::Short2
+                    | Choice::ShortHalf
+                    | Choice::ShortNm2
+                    | Choice::ShortNm1
+                    | Choice::ShortThenEof
+                    | Choice::ShortThenErr
+                    | Choice::ShortThenWouldBlock
+                    | Choice::ShortThenTimedOut => {
                         let k = match c {
-                            Choice::Short1 | Choice::ShortThenEof => short(1),
+                            Choice::Short1 | Choice::ShortThenEof | Choice::ShortThenErr | Choice::ShortThenWouldBlock | Choice::ShortThenTimedOut => short(1),
                             Choice::Short2 => short(2),
                             Choice::ShortHalf => short(full / 2),
                             Choice::ShortNm2 => short(full.wrapping_sub(2)),
@@ -168,9 +199,13 @@ impl Read for EnvReader {
                         if let Some(k) = k {
                             n = k;
                             st.applied += 1;
-                            if c == Choice::ShortThenEof {
-                                st.pending = Some(Choice::Eof);
-                            }
+                            st.pending = match c {
+                                Choice::ShortThenEof => Some(Choice::Eof),
+                                Choice::ShortThenErr => Some(Choice::ReadErr),
+                                Choice::ShortThenWouldBlock => Some(Choice::ReadWouldBlock),
+                                Choice::ShortThenTimedOut => Some(Choice::ReadTimedOut),
+                                _ => st.pending,
+                            };
                         }
                     }
                     Choice::Interrupted | Choice::Interrupted2 => {
@@ -183,13 +218,18 @@ impl Read for EnvReader {
                             return Err(Error::new(ErrorKind::Interrupted, "injected: interrupted"));
                         }
                     }
-                    Choice::ReadErr | Choice::ReadErrDead => {
+                    Choice::ReadErr | Choice::ReadErrDead | Choice::ReadWouldBlock | Choice::ReadTimedOut => {
                         st.applied += 1;
                         if c == Choice::ReadErrDead {
                             st.dead = true;
                         }
                         st.log.push(IoEvent::ReadErr { pos, req });
-                        return Err(Error::new(ErrorKind::Other, "injected: read error"));
+                        let kind = match c {
+                            Choice::ReadWouldBlock => ErrorKind::WouldBlock,
+                            Choice::ReadTimedOut => ErrorKind::TimedOut,
+                            _ => ErrorKind::Other,
+                        };
+                        return Err(Error::new(kind, "injected: read error"));
                     }
                     Choice::Eof | Choice::EofDead => {
                         if full > 0 {
